@@ -817,7 +817,9 @@ class MyPyAstVisitor:
                 and not node.is_inferred
             ):
                 if unanalyzed_type is not None and hasattr(unanalyzed_type, "args"):
-                    attribute_type.args = unanalyzed_type.args
+                    # Only needed for list[a, b], which mypy reduces to list[Any]; otherwise keep the analysed arguments
+                    if len(unanalyzed_type.args) != len(attribute_type.args):
+                        attribute_type.args = unanalyzed_type.args
                 else:  # pragma: no cover
                     raise AttributeError("Could not get argument information for attribute.")
 
